@@ -182,15 +182,23 @@ Theorem C16_on_symmetric : forall sa ta a b, swapped sa ta (a, b) = true ->
 Proof. exact on_pair_spec_sym. Qed.
 Print Assumptions C16_on_symmetric.
 
-(* ... the code is positional (finding F-C16-ON): "JOIN t m ON m.a = k" takes a for the stream field and k for
-   the table key; with t = [{a:1, v:7}] the row {k:2}, which has no match, is enriched with v = 7 *)
-Theorem C16_on_swapped_refuted : exists q regs ops,
-  well_oriented q = false /\ model_run_sql q regs ops <> spec_run_sql q regs ops.
+(* ... as found the code was positional (finding F56): "JOIN t m ON m.a = k" took a for the stream field and k for
+   the table key; with t = [{a:1, v:7}] the row {k:2}, which has no match, was enriched with v = 7.
+   Repaired (parseJoin turns a pair around when its qualifiers say table = stream): the refinement from the
+   SQL text on now holds for EVERY query, whatever the orientation of its ON equalities *)
+Theorem C16_refinement_sql_any_orientation : forall (q : qtext) (regs : list reg_call) (ops : list op),
+  model_run_sql q regs ops = spec_run_sql q regs ops.
+Proof. exact refinement_sql_all. Qed.
+Print Assumptions C16_refinement_sql_any_orientation.
+
+Theorem C16_on_swapped_asfound_refuted : exists q regs ops,
+  well_oriented q = false /\ model_run_sql_asfound q regs ops <> spec_run_sql q regs ops /\
+  model_run_sql q regs ops = spec_run_sql q regs ops.
 Proof.
-  exists sw_q, sw_regs, sw_ops. destruct swapped_on_refuted as [H0 [H1 H2]]. split; [exact H0|].
+  exists sw_q, sw_regs, sw_ops. destruct swapped_on_refuted as [H0 [H1 [H2 H3]]]. split; [exact H0|]. split; [|exact H3].
   rewrite H1, H2. discriminate.
 Qed.
-Print Assumptions C16_on_swapped_refuted.
+Print Assumptions C16_on_swapped_asfound_refuted.
 
 (* ---- concurrent table updates ---- *)
 (* every Upsert / Delete / Lookup is one atomic step, so a concurrent run of two goroutines is a merge
